@@ -23,6 +23,7 @@ type ReplayFile struct {
 	Trace     []uint64          `json:"trace"` // nil => generate from (verif_seed, run)
 	Explicit  json.RawMessage   `json:"explicit_scenario,omitempty"` // if set: executed directly, no generator involved
 	Skip      []string          `json:"skip,omitempty"`
+	Race      bool              `json:"race_build,omitempty"` // found by (and to be replayed with) the -race build
 	Violation *simkit.Violation `json:"violation,omitempty"`
 	Shrink    string            `json:"shrink,omitempty"`
 	Note      string            `json:"note,omitempty"`
@@ -256,7 +257,7 @@ func shrinkAndSave(cfg *propCfg, a workerArgs, run uint64, trace []uint64, v *si
 		min = trace
 		best = v
 	}
-	rf := &ReplayFile{Property: a.Prop, VerifSeed: a.Seed, Run: run, Thorough: a.Thorough, Trace: min, Skip: a.Skip,
+	rf := &ReplayFile{Property: a.Prop, VerifSeed: a.Seed, Run: run, Thorough: a.Thorough, Trace: min, Skip: a.Skip, Race: simkit.RaceBuild,
 		Violation: best, Shrink: fmt.Sprintf("trace %d -> %d choices in %d attempts", len(trace), len(min), attempts)}
 	if rf.Trace == nil {
 		rf.Trace = []uint64{}
